@@ -41,6 +41,41 @@ def scenario_source(kind, name):
         cfg, meta = gen.gen(name["seed"], name.get("family"), name.get("knobs"))
         meta["name"] = f"gen-{name['seed']}"
         return cfg, meta
+    if kind == "genfolder":  # an episode-scheduled folder written from a generated scenario: base file + one overlay per schedule entry
+        import tempfile
+
+        import yaml
+
+        cfg, meta = gen.gen(name["seed"], name.get("family", "routed"), name.get("knobs"))
+        cfg = copy.deepcopy(cfg)
+        scripted = [a for a in cfg["agents"] if a.get("type") != "proxy-agent"]
+        cfg["agents"] = [a for a in cfg["agents"] if a.get("type") == "proxy-agent"] + ["__SCRIPTED__"]
+        d = tempfile.mkdtemp(prefix="pv-genfolder-", dir=os.environ.get("HOME"))
+        base = yaml.safe_dump(cfg, sort_keys=False).replace("- __SCRIPTED__", "- *scripted")
+        with open(os.path.join(d, "base.yaml"), "w") as f:
+            f.write(base)
+        entries = name.get("entries", 2)
+        sched = {}
+        for k in range(entries):
+            ags = copy.deepcopy(scripted if k % 2 == 0 else scripted[:-1])
+            body = yaml.safe_dump({"scripted": ags}, sort_keys=False).replace("scripted:", "scripted: &scripted", 1)
+            with open(os.path.join(d, f"overlay_{k}.yaml"), "w") as f:
+                f.write(body)
+            sched[k] = [f"overlay_{k}.yaml"]
+        with open(os.path.join(d, "schedule.yaml"), "w") as f:
+            yaml.safe_dump({"base_scenario": "base.yaml", "schedule": sched}, f)
+        meta = dict(meta, name=f"genfolder-{name['seed']}", schedule=[tuple(v) for v in sched.values()])
+        return d, meta
+    if kind == "variant":  # a shipped / generated scenario whose scripted-agent settings are re-drawn from their documented ranges
+        import random as _random
+
+        from pv.checks.c19 import mutate_settings
+        from pv.harness import Cov
+
+        cfg, meta = scenario_source(*name["base"])
+        cfg = mutate_settings(cfg, _random.Random(name["settings_seed"]), Cov(), None, p_nodes=name.get("p_nodes", 0.6))
+        meta = dict(meta, name=f"{meta['name']}~settings{name['settings_seed']}")
+        return cfg, meta
     raise ValueError(kind)
 
 
